@@ -34,9 +34,13 @@ Theorem C10_no_clobber_fails : forall w ord q n x,
 Proof. exact no_clobber_fails. Qed.
 Print Assumptions C10_no_clobber_fails.
 
-(* [force_of w x] is the force-file-write of the package of a selected request with key x
-   (and, with packages keyed by path, of every selected request with that key); [key_path]
-   is the file of such a request. *)
+(* [force_of w x] is the force-file-write of the mock that governs the output file with key
+   x - the first selected request with that key that the run meets ([file_gov]); [file_pkg]
+   is its source package, [key_path] its file. *)
+Theorem C10_file_gov_sound : forall w x g,
+  file_gov w x = Some g -> exists p, In (p, g) (selected_reqs w) /\ q_key g = x.
+Proof. exact file_gov_sound. Qed.
+Print Assumptions C10_file_gov_sound.
 Theorem C10_force_of_sound : forall w x p,
   file_pkg w x = Some p -> exists q, In (p, q) (selected_reqs w) /\ q_key q = x.
 Proof. exact file_pkg_sound. Qed.
@@ -97,15 +101,13 @@ Print Assumptions C10_dir_occupied.
 
 (* ---- examples ---- *)
 Fixpoint key_of (p : path) : str := match p with [] => [] | s :: t => x2f :: s ++ key_of t end.
-Definition mk_req (name : str) (p : path) : request :=
+Definition mk_req (force : bool) (name : str) (p : path) : request :=
   {| q_iface := name; q_tstatus := TOk; q_key := key_of p; q_path := p; q_pkgname := B "a"; q_template := B "testify";
+     q_require_schema := true; q_schema_ok := true; q_force := force; q_formatter := FGoimports;
      q_prep_ok := true; q_data_ok := true; q_exec_ok := true |}.
-Definition mk_cfg (force : bool) (data_ok : bool) : pkgcfg :=
-  {| c_tstatus := TOk; c_tkind := TBuiltin; c_tfound := true; c_tparses := true;
-     c_require_schema := true; c_schema_ok := true; c_data_ok := data_ok; c_force := force |}.
-Definition mk_pkg (force data_ok : bool) (ds : list decl) : package :=
+Definition mk_pkg (ds : list decl) : package :=
   {| p_path := B "example.com/m/a"; p_nfiles := 1; p_nerrors := 0; p_decls := ds;
-     p_listed := []; p_all := true; p_include := None; p_exclude := None; p_cfg := mk_cfg force data_ok |}.
+     p_listed := []; p_all := true; p_include := None; p_exclude := None; p_cfg := {| c_tstatus := TOk |} |}.
 Definition base_fs (extra : path -> option node) : fs := fun p =>
   match extra p with
   | Some n => Some n
@@ -114,9 +116,9 @@ Definition base_fs (extra : path -> option node) : fs := fun p =>
     else if path_eqb p [B "m"; B "go.mod"] then Some (File (B "module example.com/m"))
     else None
   end.
-Definition mk_world (force data_ok : bool) (ds : list decl) (extra : path -> option node) : world :=
-  {| w_cfg := CfgOk; w_roots := []; w_exclude := []; w_pkgs := [mk_pkg force data_ok ds];
-     w_formatter := FGoimports; w_modaux := fun _ => true; w_fs := base_fs extra; w_ro := fun _ => false;
+Definition mk_world (ds : list decl) (extra : path -> option node) : world :=
+  {| w_cfg := CfgOk; w_roots := []; w_pkgs := [mk_pkg ds];
+     w_tinfo := (fun _ => {| ti_kind := TBuiltin; ti_found := true; ti_parses := true |}); w_modaux := fun _ => true; w_fs := base_fs extra; w_ro := fun _ => false;
      w_content := fun _ => B "NEW"; w_valid_go := fun _ => true |}.
 
 Definition out1 : path := [B "m"; B "a"; B "mocks_test.go"].
@@ -126,10 +128,10 @@ Definition user (p : path) : option node := if path_eqb p out1 then Some (File (
 (* an occupied path: untouched and exit 1 without force, replaced with force; a second file
    in a new directory tree is written when it comes first in the map order, not otherwise *)
 Example C10_example :
-  let ds := [ {| d_name := B "I"; d_reqs := [mk_req (B "I") out1] |};
-              {| d_name := B "J"; d_reqs := [mk_req (B "J") out2] |} ] in
-  let w0 := mk_world false true ds user in
-  let w1 := mk_world true true ds user in
+  let ds f := [ {| d_name := B "I"; d_reqs := [mk_req f (B "I") out1] |};
+                {| d_name := B "J"; d_reqs := [mk_req f (B "J") out2] |} ] in
+  let w0 := mk_world (ds false) user in
+  let w1 := mk_world (ds true) user in
   let k1 := key_of out1 in let k2 := key_of out2 in
   fst (run w0 [k1; k2]) = ExitErr /\ snd (run w0 [k1; k2]) out1 = Some (File (B "USER")) /\
   snd (run w0 [k1; k2]) out2 = None /\
@@ -144,9 +146,9 @@ Theorem C10_nested_refuted :
   exists w ord x, In x (out_paths w) /\ snd (run w ord) x <> w_fs w x /\
                   forall k, snd (run w ord) x <> Some (File (w_content w k)).
 Proof.
-  exists (mk_world false true
-            [ {| d_name := B "I"; d_reqs := [mk_req (B "I") [B "m"; B "a"; B "x"]] |};
-              {| d_name := B "J"; d_reqs := [mk_req (B "J") [B "m"; B "a"; B "x"; B "y.go"]] |} ]
+  exists (mk_world
+            [ {| d_name := B "I"; d_reqs := [mk_req false (B "I") [B "m"; B "a"; B "x"]] |};
+              {| d_name := B "J"; d_reqs := [mk_req false (B "J") [B "m"; B "a"; B "x"; B "y.go"]] |} ]
             (fun _ => None)),
          [key_of [B "m"; B "a"; B "x"; B "y.go"]; key_of [B "m"; B "a"; B "x"]], [B "m"; B "a"; B "x"].
   vm_compute. split; [now left|]. split; [discriminate | intros _; discriminate].
@@ -156,9 +158,9 @@ Print Assumptions C10_nested_refuted.
 (* The guards of C10_stage_failure_output / C10_output_old_or_new are satisfiable by a world
    with two output files in different directories (the one of C10_example). *)
 Example C10_guards_satisfiable :
-  let w := mk_world false true
-             [ {| d_name := B "I"; d_reqs := [mk_req (B "I") out1] |};
-               {| d_name := B "J"; d_reqs := [mk_req (B "J") out2] |} ] user in
+  let w := mk_world
+             [ {| d_name := B "I"; d_reqs := [mk_req false (B "I") out1] |};
+               {| d_name := B "J"; d_reqs := [mk_req false (B "J") out2] |} ] user in
   no_nested w /\ no_alias w.
 Proof.
   cbv zeta. split.
